@@ -214,7 +214,7 @@ def generate(tier):
     return out
 
 
-RULE = ('enums with V<=3 variants over variant shapes {unit, tuple(P), named{P}, tuple(P,P)} x payload P in {bool, u8, i8, char, '
+RULE = ('four- and five-variant enums (all-unit x repr x discriminant patterns; mixed payloads in every rotation); enums with V<=3 variants over variant shapes {unit, tuple(P), named{P}, tuple(P,P)} x payload P in {bool, u8, i8, char, '
         '&\'static u8, NonZeroU8, Option<NonZeroU8>, Option<bool>, (), u16, u32, nested enum} x #[repr] in {none, C, u8..i64, usize, isize, '
         '"C, u8", align(N), transparent} x discriminant patterns {implicit; up to the type maximum by implicit continuation; decreasing; '
         'negative; minimum; gaps with implicit continuation; values that read as negative i8} (only those rustc accepts) x {PartialOrd; Ord + '
